@@ -77,3 +77,40 @@ def validate_model_traces(lang_record, traces, emit=False, timeout=900, workers=
         return out
     finally:
         shutil.rmtree(d, ignore_errors=True)
+
+
+def validate_graph_traces(traces, timeout=900, workers=8):
+    """Batch validation of attack-graph traces against Trace_Graph (GraphSM effect operators)."""
+    traces = _small_ids(traces)
+    d = tlc.scratch('gtraces')
+    try:
+        tf = os.path.join(d, 'traces.json')
+        with open(tf, 'w') as f:
+            json.dump([{'id': t['id'], 'events': t['events']} for t in traces], f)
+        best = {}
+
+        def on(v):
+            if v.get('kind') != 'pos':
+                return
+            b = best.get(v['tid'])
+            if b is None or v['pos'] > b['pos']:
+                best[v['tid']] = v
+        r = tlc.run_tlc('Trace_Graph', 'Trace_Graph.cfg', env={'VERIF_TRACES': tf}, on_json=on, timeout=timeout, workers=workers)
+        out = {'__stats__': r.as_dict()}
+        if r.violation:
+            out['__violation__'] = r.violation
+            return out
+        for t in traces:
+            b = best.get(t['id'])
+            n = len(t['events'])
+            if b is None:
+                out[t['id']] = {'pos': 0, 'len': n, 'status': 'rejected'}
+            elif b['pos'] > n:
+                out[t['id']] = {'pos': b['pos'], 'len': n, 'status': 'accepted'}
+            elif b.get('ood'):
+                out[t['id']] = {'pos': b['pos'], 'len': n, 'status': 'inconclusive'}
+            else:
+                out[t['id']] = {'pos': b['pos'], 'len': n, 'status': 'rejected'}
+        return out
+    finally:
+        shutil.rmtree(d, ignore_errors=True)
